@@ -26,6 +26,24 @@ def generate(rng, tier):
                 c["desc"]["dy"] = "none"
             c["int_dtype"] = [c["int_dtype"][0], False, c["int_dtype"][2]]
             c["desc"]["data"] = str(c["desc"]["data"]) + "+nonfinite sample"
+        if i % 10 == 4 and len(c["xin"]) >= 3 and sorted(c["xin"]) == c["xin"] and all(v == v for v in c["yin"]):
+            # with the omitted-range correction on: it is a term of the values only, the uncertainties are those of the quadrature
+            sh = 0.4 - min(c["xin"]) if min(c["xin"]) < 0.4 else 0.0
+            c["xin"] = [v + sh for v in c["xin"]]
+            c["xmin"] = None if c["xmin"] is None else c["xmin"] + sh
+            c["xmax"] = None if c["xmax"] is None else c["xmax"] + sh
+            lo_ = c["xmin"] if c["xmin"] is not None else min(c["xin"])
+            hi_ = c["xmax"] if c["xmax"] is not None else max(c["xin"])
+            if any(lo_ <= v <= hi_ for v in c["xin"]):
+                c["omitted"] = True
+                c["desc"]["omitted"] = True
+                c["xout"] = [abs(v) + 0.05 for v in c["xout"]]
+                c["int_dtype"] = [False, c["int_dtype"][1], False]
+                if c["lorch"] and (i // 10) % 2:
+                    c["lorch"] = False
+                    c["desc"]["lorch"] = False
+                if c["dy"] is not None:      # the first kept point carries a sizeable uncertainty
+                    c["dy"] = [abs(v) + 0.05 for v in c["dy"]]
         cases.append(c)
     return cases
 
